@@ -348,6 +348,18 @@ FEATURES = [
     ('mixed-syntax-as-string', 'a %(x)s <dtml-var x> %(y)s b',
      [lambda: dict(x=1, y=2), lambda: dict(x='<', y='>'),
       lambda: dict(x=None, y='')], {'cls': 'String'}),
+    ('broken-source', 'a<dtml-if x>never closed <dtml-var x>',
+     [lambda: dict(x=1), lambda: dict(x=0), lambda: dict()]),
+    ('broken-expr', 'a<dtml-var "x +">b',
+     [lambda: dict(x=1), lambda: dict(x='s'), lambda: dict()]),
+    ('raise-expr', '[<dtml-try><dtml-raise expr="t">m<dtml-var m></dtml-raise>'
+                   '<dtml-except ErrB>B<dtml-except ErrA>A<dtml-except>O:'
+                   '<dtml-var error_type></dtml-try>|<dtml-in ts><dtml-try>'
+                   '<dtml-raise "_[\'sequence-item\']">x</dtml-raise>'
+                   '<dtml-except ErrA>a<dtml-except>o</dtml-try></dtml-in>]',
+     [lambda: dict(t=ErrA, m=1, ts=[ErrA, ErrX, ErrB]),
+      lambda: dict(t=ErrX, m=2, ts=[ErrX, ErrA]),
+      lambda: dict(t=ErrB, m=3, ts=[])]),
     ('bytes-join', '<dtml-var a><dtml-var b>',
      [lambda: dict(a=b'\xc3\xa9', b=b'x'), lambda: dict(a='\xe9', b=b'\xc3\xa9'),
       lambda: dict(a=1, b=None)]),
